@@ -17,7 +17,7 @@ NOARG = 99
 CLAUSE_PROP = {
     'result': 'C14', 'rows': 'C14', 'len': 'C14', 'getitem': 'C14', 'slice': 'C14', 'contains': 'C14',
     'iter': 'C14', 'slice_shape': 'C14', 'parent_changed': 'C14', 'exception': 'C14', 'repr': 'C14',
-    'rev': 'C14', 'step2': 'C14', 'index': 'C14', 'count': 'C14', 'other': 'C14', 'switch': 'C14',
+    'rev': 'C14', 'step2': 'C14', 'slicestep': 'C14', 'index': 'C14', 'count': 'C14', 'other': 'C14', 'switch': 'C14',
     'lookup': 'C15', 'get': 'C15',
     'version': 'C10',
 }
@@ -44,7 +44,7 @@ class Rows(object):
         idk = d.get('id')
         if idk is not None:
             kind, v = idk
-            row['id'] = v if kind == 'str' else int(v) if kind == 'int' else hs.Ref(v)
+            row['id'] = v if kind == 'str' else int(v) if kind == 'int' else hs.Ref(v, 'Dis ' + v) if kind == 'refdis' else hs.Ref(v)
         row['v'] = d['n']
         if d.get('only3'):
             row['l'] = {'list': [1], 'dict': {'x': 1}, 'na': hs.NA}[d['only3']]
@@ -57,7 +57,7 @@ class Rows(object):
 def idstr(idk):
     """string form of an id descriptor (what str(row['id']) is); code table built from these."""
     kind, v = idk
-    return '@' + v if kind == 'ref' else str(v)
+    return '@' + v if kind == 'ref' else "@%s 'Dis %s'" % (v, v) if kind == 'refdis' else str(v)
 
 
 MC_ROWS = [
@@ -79,6 +79,9 @@ def key_variants(hs, s):
     out = [(s, True)]
     if s.startswith('@'):
         out.append((hs.Ref(s[1:]), True))
+        if " '" in s and s.endswith("'"):
+            name, dis = s[1:-1].split(" '", 1)
+            out.append((hs.Ref(name, dis), True))       # the reference itself, display name and all
     if s.isdigit():
         out.append((int(s), False))       # numeric keys are positional for g[key]; only get() applies
     return out
@@ -133,6 +136,9 @@ def apply_op(hs, g, R, o):
             return ['None'], g
         if n == 'delslice':
             del g[arg(o['a']):arg(o['b'])]
+            return ['None'], g
+        if n == 'delstep':
+            del g[arg(o['a']):arg(o['b']):o['st']]
             return ['None'], g
         if n == 'setslice':
             g[arg(o['a']):arg(o['b'])] = arg_form(hs, R, o['rs'])
@@ -240,6 +246,17 @@ def observe(hs, g, R, codes, rng=None, full=False, lookups=True):
                 obs.append({'k': kind, 'rows': [R.rid(x) for x in d] if type(d) is hs.Grid and shape(d) == shape(g) else [-3]})
             except Exception as e:
                 obs.append({'k': kind, 'rows': [-2], 'exc': type(e).__name__})
+        nn = len(g._row)
+        for _ in range(2):
+            a = NOARG if rng.random() < 0.3 else rng.randint(-nn - 1, nn + 1)
+            b = NOARG if rng.random() < 0.3 else rng.randint(-nn - 1, nn + 1)
+            st = rng.choice([-3, -2, -1, 2, 3])
+            try:
+                d = g[arg(a):arg(b):st]
+                obs.append({'k': 'slicestep', 'a': a, 'b': b, 'st': st,
+                            'rows': [R.rid(x) for x in d] if type(d) is hs.Grid and shape(d) == shape(g) else [-3]})
+            except Exception as e:
+                obs.append({'k': 'slicestep', 'a': a, 'b': b, 'st': st, 'rows': [-2], 'exc': type(e).__name__})
         for rid_, o in list(R.objs.items())[:6]:
             if R.spec[rid_ - 1]['t'] != 'dict':
                 continue
@@ -468,7 +485,7 @@ def run_engine(rep, tier, focus):
         if tier == 'quick':
             # quick: every operation from every state, but index arguments thinned deterministically
             work_items = [w for i, w in enumerate(work_items)
-                          if w[1]['name'] not in ('insert', 'setitem', 'delslice', 'slice', 'extend', 'iadd', 'setslice', 'setslice_row')
+                          if w[1]['name'] not in ('insert', 'setitem', 'delslice', 'slice', 'extend', 'iadd', 'setslice', 'setslice_row', 'delstep')
                           or i % 3 == seed() % 3]
         chunks = [work_items[i::NCPU * 4] for i in range(NCPU * 4)]
         with multiprocessing.get_context('fork').Pool(NCPU, initializer=_init_worker,
@@ -516,11 +533,11 @@ def idkinds(rows):
 def history_alphabet(rng):
     spec, codes, code_of = [], {}, {}
     idpool = [('str', 'a'), ('str', 'b'), ('int', '5'), ('int', '0'), ('ref', 'b'), ('ref', 'r1'),
-              ('str', '5'), ('str', '@b'), ('str', ''), ('str', '0')]
+              ('str', '5'), ('str', '@b'), ('str', ''), ('str', '0'), ('refdis', 'r1'), ('refdis', 'b')]
     for i in range(14):
         d = {'t': 'dict', 'n': i}
         if i % 5 != 4:
-            d['id'] = idpool[i % len(idpool)] if i < 10 else rng.choice(idpool)
+            d['id'] = idpool[i % len(idpool)] if i < 10 else idpool[10 + (i % 2)] if i in (12, 13) else rng.choice(idpool)
         if i in (6, 11):
             d['only3'] = rng.choice(['list', 'dict', 'na'])
         spec.append(d)
@@ -550,7 +567,7 @@ def random_history(hs, rng, spec, codes, length):
     quiet = 0          # number of coming events after which no lookup by id is observed
     names = ['append'] * 5 + ['insert'] * 4 + ['setitem'] * 4 + ['delitem'] * 3 + ['delslice', 'pop', 'pop', 'remove',
              'reverse', 'extend', 'extend', 'iadd', 'slice', 'slice', 'filter_id', 'filter_limit', 'clear',
-             'setslice', 'setslice', 'setslice_row']
+             'setslice', 'setslice', 'setslice_row', 'delstep', 'delstep']
     for _ in range(length):
         n = len(g._row)
         name = rng.choice(names)
@@ -596,6 +613,8 @@ def random_history(hs, rng, spec, codes, length):
         elif name == 'setslice':
             o['a'] = SL(); o['b'] = SL()
             o['rs'] = [RW() for _ in range(rng.randint(0, 3))]
+        elif name == 'delstep':
+            o['a'] = SL(); o['b'] = SL(); o['st'] = rng.choice([-1, -1, -2, 2, 3, -3])
         elif name == 'setslice_row':
             o['a'] = SL(); o['b'] = SL(); o['r'] = RW()
         elif name == 'filter_limit':
